@@ -28,7 +28,9 @@ def canon(data, blocked):
 def run_tool(case, data, a, b, in_b, out_b):
     """one conversion through the tool named in the case"""
     tool = case['tool']
-    fmt = lambda x: '1014' if x else 'vbs'   # noqa: E731
+    # strings as a command line delivers them: built at run time, equal to but not identical with any literal in the code
+    fmt = lambda x: ''.join(['10', '14']) if x else ''.join(['v', 'bs'])   # noqa: E731
+    a, b = ''.join(list(a)), ''.join(list(b))
     if tool == 'encode':
         from cardutil.cli import mci_ipm_encode
         out = io.BytesIO()
